@@ -129,6 +129,33 @@ def check(run):
         got = " ".join(o.split(" ")[:3])
         if got != want or "DIFFERS" in o:
             oracle_fail.append((l, f"MessagePack of {shape} x{cnt} per the specification: " + want, o[:200]))
+    # bin / ext values built through the typed API (MsgPackBinary / MsgPackExtension converters), every payload size
+    # around the header-width thresholds; the serialization must be the value's encoding per the specification
+    tlines, texp = [], []
+    sizes = [0, 1, 2, 3, 4, 5, 7, 8, 9, 15, 16, 17, 31, 32, 255, 256, 257, 1000, 65529, 65530, 65531, 65532, 65533, 65534]
+    for n_ in sizes:
+        pl = bytes(rnd.randrange(256) for _ in range(n_))
+        tlines.append("TB " + hx(pl)); texp.append(("bin", pl))
+        ty = rnd.choice([0, 1, 5, 127, -1, -128])
+        tlines.append("TX %d %s" % (ty, hx(pl))); texp.append(("ext", ty & 255, pl))
+    mismT, moT, ioT = vlib.correspond(run, model, impl, tlines, cfg, "typed bin/ext")
+    all_mism += mismT
+    for l, v, o in zip(tlines, texp, ioT):
+        if o == "<crash>":
+            continue
+        parts = o.split(" ")
+        enc = gen_doc.mp_encode(v)
+        if len(enc) > 65535:
+            want_hex = "c0"          # the raw string cannot be created: the value stays null
+        else:
+            want_hex = hx(enc)
+        if parts[1] != want_hex or parts[2] != parts[3] or int(parts[2]) != len(bytes.fromhex(parts[1])):
+            oracle_fail.append((l[:200], "the minimal MessagePack encoding of that bin/ext object: " + want_hex[:60], o[:200]))
+        elif len(enc) <= 65535:
+            back = parts[4].split("=", 1)[1]
+            wantb = ("s" + hx(v[1])) if v[0] == "bin" else ("%d:s%s" % (v[1], hx(v[2])))
+            if back != wantb:
+                oracle_fail.append((l[:200], "as<MsgPackBinary/MsgPackExtension>() returns the payload: " + wantb[:80], o[:200]))
     # bounded buffers
     blines, expect = [], []
     idx = list(range(len(dumps)))
